@@ -284,3 +284,47 @@ func ZZWalManySegments(n int) {
 	zzSegCap = 2
 	vReach("end")
 }
+
+// ZZWalReaderTail (C09): readers at the moving end of the log. A forward reader reads the n stored entries,
+// asks once more at the tail (an error, not an entry), then the WAL grows by k entries: the SAME reader must
+// deliver exactly those entries next — a failed read never consumes an offset. A reverse reader opened after
+// the growth returns everything, newest first.
+func ZZWalReaderTail(n, k int) {
+	zzDisk = map[int64]*zzSegData{}
+	dir := vTempDir()
+	w := zzOpenWal(dir, &zzCommit{off: 1 << 40}, &zzWClock{})
+	for i := int64(0); i < int64(n); i++ {
+		vAssert("append-ok", w.Append(zzEntry(i, uint64(1000+i))) == nil)
+	}
+	r, err := w.NewReader(-1)
+	vAssert("reader-ok", err == nil)
+	for i := int64(0); i < int64(n); i++ {
+		vAssert("has-next", r.HasNext())
+		e, rerr := r.ReadNext()
+		vAssert("read-in-order", rerr == nil && e.Offset == i)
+	}
+	vAssert("at-the-tail", !r.HasNext())
+	_, terr := r.ReadNext()
+	vAssert("reading-past-the-end-is-an-error", terr != nil)
+	for i := int64(n); i < int64(n+k); i++ {
+		vAssert("append-ok", w.Append(zzEntry(i, uint64(1000+i))) == nil)
+	}
+	for i := int64(n); i < int64(n+k); i++ {
+		vAssert("reader-sees-the-growth", r.HasNext())
+		e, rerr := r.ReadNext()
+		vAssert("failed-read-did-not-consume-an-offset", rerr == nil && e != nil && e.Offset == i && e.Value[0] == byte(i+1))
+	}
+	vAssert("tail-again", !r.HasNext())
+	_ = r.Close()
+	rr, err := w.NewReverseReader()
+	vAssert("reverse-reader-ok", err == nil)
+	for i := int64(n+k) - 1; i >= 0; i-- {
+		vAssert("reverse-has-next", rr.HasNext())
+		e, rerr := rr.ReadNext()
+		vAssert("reverse-in-order", rerr == nil && e.Offset == i)
+	}
+	vAssert("reverse-ends", !rr.HasNext())
+	_ = rr.Close()
+	_ = w.Close()
+	vReach("end")
+}
